@@ -156,9 +156,9 @@ pub fn plan_for(prop: &str, tier: &str) -> Option<Plan> {
         "C08" => {
             exhaustive = false;
             (
-                vec![enumerated(Scenario::Bytes(0), if q { 131_586 } else { 33_686_018 }), scn(Scenario::Bytes(1), k(60_000)), enumerated(Scenario::Bytes(2), 43_008), scn(Scenario::Bytes(3), k(8_000))],
+                vec![enumerated(Scenario::Bytes(0), if q { 131_586 } else { 33_686_018 }), scn(Scenario::Bytes(1), k(60_000)), enumerated(Scenario::Bytes(2), 43_008), scn(Scenario::Bytes(3), k(8_000)), prog(Inbound, k(12_000)), prog(Sessions, k(4_000))],
                 "fault_enumeration",
-                "Bytes(0): every byte string of length <= 2 (quick) / <= 3 (thorough) fed through the transport before and after CONNACK; Bytes(2): every first byte x length-field forms x shorter/exact/longer body; Bytes(1): valid server packets of every type with random legal property sets, then mutated; Bytes(3): valid packets whose total size is the receive-buffer size -3..+6 for 18 buffer sizes on both sides of the 1/2/3-byte length-field boundaries; oracle = reference classifier (valid => accepted with the values sent; listed malformations => invalid-packet error, dead handle, nothing acted upon, reconnect works; malformation inside a property block => left open; panic => violation)",
+                "Bytes(0): every byte string of length <= 2 (quick) / <= 3 (thorough) fed through the transport before and after CONNACK; Bytes(2): every first byte x length-field forms x shorter/exact/longer body; Bytes(1): valid server packets of every type with random legal property sets, then mutated; Bytes(3): valid packets whose total size is the receive-buffer size -3..+6 for 18 buffer sizes on both sides of the 1/2/3-byte length-field boundaries; oracle = reference classifier (valid => accepted with the values sent; listed malformations => invalid-packet error, dead handle, nothing acted upon, reconnect works; malformation inside a property block => left open; panic => violation); Inbound/Sessions programs: broker traffic at the limit of what the client advertised (Receive Maximum saturated with QoS 2 deliveries, small broker-side limits in the CONNACK) - a valid inbound PUBLISH that is consumed must be handed over",
                 &["bytes_case"],
             )
         }
